@@ -65,6 +65,17 @@ var Schema = []*Table{
 	{Name: "c", Cols: []string{"ck", "pk"}, Indexes: []Index{
 		{Mode: 'k', Cols: []string{"ck"}},
 		{Mode: 'i', Cols: []string{"pk"}, FkTable: "p", FkMode: 3}}},
+	// a cascade that goes through two tables and is blocked further down:
+	// h <- l1 (cascade), h <- l2 (its KEY is the foreign key, cascade), l2 <- g (block)
+	{Name: "h", Cols: []string{"hk", "d"}, Indexes: []Index{{Mode: 'k', Cols: []string{"hk"}}}},
+	{Name: "l1", Cols: []string{"k1", "hk"}, Indexes: []Index{
+		{Mode: 'k', Cols: []string{"k1"}},
+		{Mode: 'i', Cols: []string{"hk"}, FkTable: "h", FkMode: 3}}},
+	{Name: "l2", Cols: []string{"hk2", "e"}, Indexes: []Index{
+		{Mode: 'k', Cols: []string{"hk2"}, FkTable: "h", FkMode: 3}}},
+	{Name: "g", Cols: []string{"gk", "hk2"}, Indexes: []Index{
+		{Mode: 'k', Cols: []string{"gk"}},
+		{Mode: 'i', Cols: []string{"hk2"}, FkTable: "l2", FkMode: 0}}},
 }
 
 func tableDef(name string) *Table {
@@ -392,8 +403,21 @@ func (m MDB) Delete(tn string, key []string) string {
 	return "ok"
 }
 
-// Update by primary key: "ok", "nf", "dup" or "fk".
+// Update by primary key: "ok", "nf", "dup" or "fk". All or nothing: a cascaded
+// update that is refused (a duplicate in the referencing table, a row further
+// down that blocks) refuses the whole update.
 func (m MDB) Update(tn string, key []string, nr Row) string {
+	c := m.Clone()
+	res := c.update(tn, key, nr, false)
+	if res == "ok" {
+		for t, rows := range c {
+			m[t] = rows
+		}
+	}
+	return res
+}
+
+func (m MDB) update(tn string, key []string, nr Row, cascaded bool) string {
 	old := m.Lookup(tn, 0, key)
 	if old == nil {
 		return "nf"
@@ -408,30 +432,33 @@ func (m MDB) Update(tn string, key []string, nr Row) string {
 	okv := vals(t, old, t.Indexes[0].Cols)
 	nkv := vals(t, nr, t.Indexes[0].Cols)
 	keyChanged := !eq(okv, nkv)
+	var rfs []refs
 	if keyChanged {
-		for _, rf := range m.referrers(tn, okv) {
+		rfs = m.referrers(tn, okv)
+		for _, rf := range rfs {
 			if rf.ix.FkMode&1 == 0 {
 				return "fk"
 			}
 		}
 	}
-	if m.fkMissing(t, nr, old) {
+	// (the foreign key of a cascaded row is the value its target is just being
+	// changed to)
+	if !cascaded && m.fkMissing(t, nr, old) {
 		return "fk"
-	}
-	if keyChanged {
-		for _, rf := range m.referrers(tn, okv) {
-			for _, r := range rf.rows {
-				n := r.clone()
-				for i, c := range rf.ix.Cols {
-					n[rf.t.col(c)] = nkv[i]
-				}
-				m.remove(rf.t.Name, r)
-				m[rf.t.Name] = append(m[rf.t.Name], n)
-			}
-		}
 	}
 	m.remove(tn, old)
 	m[tn] = append(m[tn], nr.clone())
+	for _, rf := range rfs {
+		for _, r := range rf.rows {
+			n := r.clone()
+			for i, c := range rf.ix.Cols {
+				n[rf.t.col(c)] = nkv[i]
+			}
+			if res := m.update(rf.t.Name, vals(rf.t, r, rf.t.Indexes[0].Cols), n, true); res != "ok" {
+				return res
+			}
+		}
+	}
 	return "ok"
 }
 
